@@ -14,9 +14,9 @@ import (
 // ---------------------------------------------------------------------------
 
 var (
-	errRollback = errors.New("verif: generated rollback")
+	errRollback  = errors.New("verif: generated rollback")
 	errBodyPanic = errors.New("verif: generated panic of a transaction body")
-	errStep     = errors.New("verif: generated callback failure")
+	errStep      = errors.New("verif: generated callback failure")
 )
 
 // Writer paths (Store.Via)
